@@ -20,6 +20,10 @@ from ..gen.grids_extra import build_fractured
 
 ID = "C24"
 RULE = (
+    "(About one case in five is the chain scenario: 2-4 one-dimensional grids joined end to end by 0-d interfaces of "
+    "codimension 0 with real face maps, registered in a drawn order and pair order, then 1-5 replacements of a grid that "
+    "is the first member of all its interfaces (copy or refinement) / removals, the listing, pair and boundary-grid "
+    "invariants checked after every step.) "
     "Hypothesis draws a history of 1-22 (thorough: 1-40) operations (add one/several subdomains, add interface, re-add a removed "
     "subdomain, remove subdomain, replace subdomain(s) by a copy / a refined 1-d grid, replace the side grids of an "
     "interface, and operations documented to raise: duplicate subdomain, duplicate interface, codimension-3 "
@@ -28,7 +32,7 @@ RULE = (
     "taken modulo the number of candidates in a pure-Python model (dict of subdomains, dict interface->(hi, lo)). "
     "After every operation: subdomains()/interfaces()/boundaries() (also with dim= / codim= filters and "
     "return_data) list exactly the model's objects once each, sorted by (-dim, creation id); "
-    "interface_to_subdomain_pair = (higher, lower) and subdomain_pair_to_interface inverts it in both argument "
+    "interface_to_subdomain_pair = (higher, lower; ascending id between equal dimensions) and subdomain_pair_to_interface inverts it in both argument "
     "orders (KeyError for an unconnected pair); subdomain_to_interfaces / neighboring_subdomains (all, only_higher, "
     "only_lower) agree with the model; every subdomain of dim>0 has exactly one boundary grid whose parent it is, "
     "0-d ones none; removed / replaced-away grids, their interfaces and boundary grids are no longer contained; "
@@ -49,7 +53,8 @@ ASSUMPTIONS = ["at most one interface per pair of subdomains", "no interface fro
                "boundaries() is not queried while the container holds only 0-d subdomains (porepy raises on purpose)"]
 REQUIRED = {"op-add": 0.5, "op-intf-real": 0.2, "op-intf-synth": 0.2, "op-rm": 0.3, "op-rm-with-interfaces": 0.1,
             "op-repl": 0.15, "op-repl-with-interfaces": 0.05, "op-rint": 0.03, "op-readd": 0.03,
-            "op-bad-dup-sd": 0.01, "op-bad-dup-intf": 0.01, "hier": 0.3, "no-hier": 0.1, "codim0": 0.03, "codim2": 0.05}
+            "op-bad-dup-sd": 0.01, "op-bad-dup-intf": 0.01, "hier": 0.3, "no-hier": 0.1, "codim0": 0.03, "codim2": 0.05, "chain": 0.08,
+            "chain-repl-with-codim0-interface": 0.04}
 
 # ------------------------------------------------------------------------- real hierarchies
 HIER = [
@@ -106,7 +111,16 @@ def _spec(draw, tier):
     n = draw(st.integers(1, 22 if tier == "quick" else 40))
     big = st.integers(0, 10**6)
     ops = [[draw(st.sampled_from(OPS)), draw(big), draw(big), draw(big)] for _ in range(n)]
-    return {"hier": hier, "prelude": bool(hier >= 0 and draw(st.integers(0, 2)) > 0), "ops": ops}
+    spec = {"hier": hier, "prelude": bool(hier >= 0 and draw(st.integers(0, 2)) > 0), "ops": ops}
+    if draw(st.integers(0, 5)) == 0:
+        # a chain of 1-d grids joined end to end by 0-d interfaces of codimension 0 (real face maps), registered in a
+        # drawn order, followed by replacements / removals: {"k", "add_order", "ops": [[kind, index, refine]]}
+        k = draw(st.integers(2, 4))
+        spec["chain"] = {"k": k, "add_order": list(draw(st.permutations(list(range(k))))),
+                         "pair_flip": draw(st.lists(st.booleans(), min_size=k - 1, max_size=k - 1)),
+                         "ops": draw(st.lists(st.tuples(st.sampled_from(["repl", "repl", "repl", "rm"]), st.integers(0, 3),
+                                                        st.booleans()).map(list), min_size=1, max_size=5))}
+    return spec
 
 
 def strategy(tier):
@@ -633,6 +647,10 @@ class Exec:
             else:
                 require({id(pair[0]), id(pair[1])} == {id(hi), id(lo)}, "interface-pair",
                         f"{where}: interface {mg.id} -> {_ids(pair)} vs {_ids([hi, lo])}")
+                # documented: between grids of the same dimension the pair is given by ascending subdomain id
+                # (also after one of the two has been replaced by a newer grid)
+                require(pair[0].id < pair[1].id, "interface-pair-codim0-order",
+                        f"{where}: interface {mg.id} between equal dimensions -> ids {_ids(pair)} not ascending")
             require(mdg.subdomain_pair_to_interface((hi, lo)) is mg and mdg.subdomain_pair_to_interface((lo, hi)) is mg,
                     "pair-to-interface", f"{where}: pair {_ids([hi, lo])} does not map back to interface {mg.id}")
             require(mg in mdg, "contains", f"{where}: present interface not contained")
@@ -707,7 +725,93 @@ class Exec:
             require(mg not in mdg, "rejected-interface-contained", f"{where}: a rejected / auxiliary mortar grid is contained")
 
 
+def _chain_verify(mdg, where):
+    """The container invariants, for containers whose interfaces all join grids of the same dimension."""
+    sds = mdg.subdomains()
+    require(len(sds) == mdg.num_subdomains() and len({id(g) for g in sds}) == len(sds), "chain-subdomains-once",
+            f"{where}: subdomains listed {_ids(sds)}")
+    keys = [(-g.dim, g.id) for g in sds]
+    require(keys == sorted(keys), "chain-subdomains-sorted", f"{where}: {keys}")
+    intfs = mdg.interfaces()
+    require(len(intfs) == mdg.num_interfaces() and len({id(i) for i in intfs}) == len(intfs), "chain-interfaces-once",
+            f"{where}: interfaces listed {_ids(intfs)}")
+    require(len(mdg.boundaries()) == sum(g.dim > 0 for g in sds), "chain-boundary-grids",
+            f"{where}: {len(mdg.boundaries())} boundary grids for {len(sds)} subdomains")
+    for intf in intfs:
+        neigh = [g for g in sds if any(i is intf for i in mdg.subdomain_to_interfaces(g))]
+        require(len(neigh) == 2, "chain-interface-neighbours", f"{where}: interface {intf.id} listed by {_ids(neigh)}")
+        exp = sorted(neigh, key=lambda g: (-g.dim, g.id))
+        pair = mdg.interface_to_subdomain_pair(intf)
+        # documented: descending dimension, ascending subdomain id between grids of the same dimension
+        require(len(pair) == 2 and pair[0] is exp[0] and pair[1] is exp[1], "interface-pair-codim0-order",
+                f"{where}: interface {intf.id} -> ids {_ids(pair)}, neighbours by (dimension, id) {_ids(exp)}")
+        require(mdg.subdomain_pair_to_interface((exp[0], exp[1])) is intf and mdg.subdomain_pair_to_interface((exp[1], exp[0])) is intf,
+                "chain-pair-to-interface", f"{where}: pair {_ids(exp)} does not map back to interface {intf.id}")
+
+
+def _check_chain(c, labels):
+    import porepy as pp
+    import scipy.sparse as sps
+
+    k = c["k"]
+    grids = []
+    for j in range(k):
+        g = pp.CartGrid(np.array([2]), np.array([1.0]))
+        g.nodes[0] += float(j)
+        g.compute_geometry()
+        grids.append(g)
+    mdg = pp.MixedDimensionalGrid()
+    mdg.add_subdomains([grids[j] for j in c["add_order"]])
+    for j in range(k - 1):
+        a, b = grids[j], grids[j + 1]  # the last face of a meets the first face of b
+        first, second = (b, a) if c["pair_flip"][j] else (a, b)  # the pair may be handed over in either order
+        # columns: faces of the primary grid (the one with the lower id, a), rows: faces of the other one
+        fm = sps.csc_matrix((np.ones(1), (np.array([0]), np.array([a.num_faces - 1]))), shape=(b.num_faces, a.num_faces))
+        pt = pp.PointGrid(np.array([float(j + 1), 0.0, 0.0]))
+        pt.compute_geometry()
+        mg = pp.MortarGrid(0, {pp.grids.mortar_grid.MortarSides.NONE_SIDE: pt}, fm, codim=0)
+        mdg.add_interface(mg, (first, second), fm)
+    _chain_verify(mdg, "chain built")
+    swapped = set()  # interfaces one of whose grids was replaced: the newer grid is now the second member of the pair
+    for n, (kind, idx, refine) in enumerate(c["ops"]):
+        sds = mdg.subdomains()
+        if not sds:
+            break
+        where = f"chain op {n} {kind}"
+        if kind == "rm":
+            g = sds[idx % len(sds)]
+            gone = list(mdg.subdomain_to_interfaces(g))
+            before = mdg.num_interfaces()
+            mdg.remove_subdomain(g)
+            require(mdg.num_interfaces() == before - len(gone) and all(i not in mdg for i in gone), "chain-remove",
+                    f"{where}: interfaces of the removed grid not removed exactly")
+            labels.add("chain-rm")
+        else:
+            # only a grid that is the first (primary) member of all its interfaces can be replaced along a 0-d mortar;
+            # an interface takes part in one replacement only (afterwards the container's pair order and the roles
+            # inside the mortar grid differ, and a further replacement is outside what this check judges)
+            cand = [g for g in sds if all(mdg.interface_to_subdomain_pair(i)[0] is g and id(i) not in swapped
+                                          for i in mdg.subdomain_to_interfaces(g))]
+            if not cand:
+                continue
+            g = cand[idx % len(cand)]
+            h = pp.refinement.refine_grid_1d(g, 2) if refine else g.copy()
+            h.compute_geometry()
+            if mdg.subdomain_to_interfaces(g):
+                labels.add("chain-repl-with-codim0-interface")
+            swapped.update(id(i) for i in mdg.subdomain_to_interfaces(g))
+            mdg.replace_subdomains_and_interfaces(sd_map={g: h})
+            require(h in mdg and g not in mdg, "chain-replace", f"{where}: replaced grid still present / new grid absent")
+            labels.add("chain-repl")
+        _chain_verify(mdg, where)
+    labels.add("chain")
+
+
 def check(spec):
+    if spec.get("chain"):
+        labs = set()
+        _check_chain(spec["chain"], labs)
+        return {"labels": sorted(labs), "nontrivial": "chain-repl-with-codim0-interface" in labs}
     ex = Exec(spec)
     step = 0
     ex.verify(step)
